@@ -359,11 +359,14 @@ VERIF_REGISTER(&def);
 // reach every loop that has an enabled subscriber, however many loops there are ("in every loop that has one").
 // The loops are not run on threads: after raise() (thread-directed, so the handler has run when it returns) every
 // loop gets two non-blocking passes.
-enum { M_CFG, M_TOGGLE, M_RAISE, M_NOPS };
+enum { M_CFG, M_TOGGLE, M_RAISE, M_BADENABLE, M_NOPS };
 std::string run_many(const Scenario &s, CaseInfo &info) {
   const int kSigs = 2;
-  int nloops = 1, orig_kind = 1; unsigned masks_seed = 1;
-  for (auto &op : s.ops) if (op.code == M_CFG) { nloops = (int)op.in(0, 1, 48); orig_kind = (int)op.in(1, 1, 2); masks_seed = (unsigned)op.in(2, 1, 1 << 20); }
+  int nloops = 1, orig_kind = 1; unsigned masks_seed = 1; bool free_fd0 = false;
+  for (auto &op : s.ops) if (op.code == M_CFG) { nloops = (int)op.in(0, 1, 48); orig_kind = (int)op.in(1, 1, 2); masks_seed = (unsigned)op.in(2, 1, 1 << 20); free_fd0 = op.in(3, 0, 3) == 3; }
+  // a process started with stdin closed (a daemon): descriptor number 0 is free, so the first loop's notification pipe gets it
+  // (number 0 is freed after the loops exist - their own epoll/event descriptors would take it otherwise - and before the first subscription)
+  int saved_stdin = -1;
   struct sigaction pre[kSigs], orig[kSigs];
   for (int i = 0; i < kSigs; ++i) {
     g_sentinel_calls[i] = 0;
@@ -375,8 +378,10 @@ std::string run_many(const Scenario &s, CaseInfo &info) {
   struct L { Loop *loop = nullptr; SignalEvent *ev = nullptr; unsigned mask = 1; bool enabled = false; int calls[kSigs] = {0, 0}, expect[kSigs] = {0, 0}; int wrong = 0; };
   std::vector<L> ls(nloops);
   unsigned g = masks_seed;
+  for (int l = 0; l < nloops; ++l) ls[l].loop = Loop::New(l % 2 ? "select" : "epoll");
+  if (free_fd0) { saved_stdin = dup(0); if (saved_stdin >= 0) close(0); else free_fd0 = false; }
   for (int l = 0; l < nloops; ++l) {
-    L &x = ls[l]; x.loop = Loop::New(l % 2 ? "select" : "epoll");
+    L &x = ls[l];
     g = g * 1664525u + 1013904223u; x.mask = 1 + (g >> 16) % 3;      // {S0}, {S1} or both
     x.ev = x.loop->newSignalEvent("c04m");
     std::set<int> ss; for (int i = 0; i < kSigs; ++i) if (x.mask >> i & 1) ss.insert(sig_of(i));
@@ -387,12 +392,18 @@ std::string run_many(const Scenario &s, CaseInfo &info) {
     if ((g >> 16) % 8 != 0) { if (!x.ev->enable()) return "enable() returned false"; x.enabled = true; }
   }
   std::string err; char buf[300];
-  int sentinel_expect[kSigs] = {0, 0}; int max_subs = 0, raises = 0;
+  int sentinel_expect[kSigs] = {0, 0}; int max_subs = 0, raises = 0, bad_enables = 0;
   auto pump = [&] { for (int r = 0; r < 2; ++r) for (auto &x : ls) { x.loop->runNext([] {}, "nop"); x.loop->runLoop(Loop::Mode::kOnce); } };
   auto subs_of = [&](int si) { int n = 0; for (auto &x : ls) if (x.enabled && (x.mask >> si & 1)) n++; return n; };
   for (size_t k = 0; k < s.ops.size() && err.empty(); ++k) {
     const Op &op = s.ops[k];
     if (op.code == M_TOGGLE) { L &x = ls[op.in(0, 0, nloops - 1)]; bool ok = x.enabled ? x.ev->disable() : x.ev->enable(); x.enabled = !x.enabled; if (!ok) err = "enable()/disable() returned false"; }
+    else if (op.code == M_BADENABLE) {   // a subscription sigaction() refuses, made on this very thread: it must leave the thread able to take signals
+      L &x = ls[op.in(0, 0, nloops - 1)]; SignalEvent *bad = x.loop->newSignalEvent("c04bad");
+      bad->initialize(SIGKILL, tbox::event::Event::Mode::kPersist);
+      if (bad->enable()) err = "enable() of an event on SIGKILL returned true";
+      delete bad; bad_enables++;
+    }
     else if (op.code == M_RAISE) {
       int si = (int)op.in(0, 0, kSigs - 1);
       int n = subs_of(si); max_subs = std::max(max_subs, n);
@@ -410,7 +421,10 @@ std::string run_many(const Scenario &s, CaseInfo &info) {
   for (int i = 0; i < kSigs && err.empty(); ++i) { struct sigaction cur; sigaction(sig_of(i), nullptr, &cur); std::string why; if (!same_action(cur, orig[i], why)) { snprintf(buf, sizeof buf, "after destroying all events: disposition of signal #%d is not the original one: %s", i, why.c_str()); err = buf; } }
   for (auto &x : ls) delete x.loop;
   for (int i = 0; i < kSigs; ++i) sigaction(sig_of(i), &pre[i], nullptr);
+  if (saved_stdin >= 0) { dup2(saved_stdin, 0); close(saved_stdin); }
   if (!err.empty()) return err;
+  info.cls_if(free_fd0, "descriptor_0_free_when_the_first_subscription_is_made");
+  info.cls_if(bad_enables > 0, "refused_subscription_on_the_raising_thread");
   info.cls_if(max_subs > 16, "delivery_to_more_than_16_loops");
   info.cls_if(max_subs > 32, "delivery_to_more_than_32_loops");
   info.cls_if(max_subs >= 2 && max_subs <= 16, "delivery_to_2_16_loops");
@@ -420,16 +434,17 @@ std::string run_many(const Scenario &s, CaseInfo &info) {
 
 SubDef def_many = [] {
   SubDef d; d.name = "many_loops";
-  d.op_names = {"cfg", "toggle", "raise"};
-  d.op_arity = {3, 1, 1};
+  d.op_names = {"cfg", "toggle", "raise", "badenable"};
+  d.op_arity = {4, 1, 1, 1};
   d.nt_rule = "history with a delivery that reaches enabled subscribers in >= 2 loops";
   d.run = run_many;
 #ifndef VERIF_ENGINE_FUZZ
   d.gen = [] {
-    auto cfg = mkop(M_CFG, {rc::gen::weightedOneOf<int64_t>({{2, range(1, 8)}, {2, range(9, 24)}, {2, range(25, 48)}}), range(1, 2), range(1, 1 << 20)});
+    auto cfg = mkop(M_CFG, {rc::gen::weightedOneOf<int64_t>({{2, range(1, 8)}, {2, range(9, 24)}, {2, range(25, 48)}}), range(1, 2), range(1, 1 << 20), range(0, 3)});
     auto opg = rc::gen::weightedOneOf<Op>({
-      {3, mkop(M_RAISE, {range(0, 1)})},
+      {4, mkop(M_RAISE, {range(0, 1)})},
       {2, mkop(M_TOGGLE, {range(0, 47)})},
+      {1, mkop(M_BADENABLE, {range(0, 47)})},
     });
     return scenarioOf(fixedOps({cfg, mkop(M_RAISE, {range(0, 1)})}), opsOf(opg));
   };
